@@ -209,7 +209,9 @@ Definition npop_agree (prev : option (list Q)) (p : npop) : bool :=
       | None => forallb (fun w => Qeq_bool w 1) ws
       | Some wprev => weights_by (fun prior dens => model_weight prior dens wprev) p ws
       end
-      && cov_by (fun col => model_cov col ws) (cov_tol ws) p
+      (* the model evaluates the variance exactly; when no digit of the binary64 evaluation is guaranteed (allowance
+         >= 1) the code may equally see nan/inf and store its unit-matrix fallback: nothing to compare *)
+      && (if Qle_bool 1 (cov_tol ws) then true else cov_by (fun col => model_cov col ws) (cov_tol ws) p)
   end.
 
 Fixpoint over_pops (f : option (list Q) -> npop -> bool) (prev : option (list Q)) (ps : list npop) : bool :=
